@@ -70,6 +70,21 @@ func (ex *Exec) step(fr *frame, st *State, reach *Term, instr ssa.Instruction, e
 				ex.unsupportedAt(in, "bitwise complement in math mode")
 			}
 			bind(in, App("bvnot", SBV64, x))
+		case token.ARROW:
+			// channel receive: an arbitrary value of the element type arrives (or the receive blocks forever and
+			// the path ends). Sound for the per-function, single-threaded properties proved here; nothing is
+			// claimed about who sends. The comma-ok form yields an arbitrary ok as well.
+			vc.note("channel receive modelled as an arbitrary value of the element type (no claim about the sender)")
+			ct, _ := types.Unalias(in.X.Type()).Underlying().(*types.Chan)
+			if ct == nil {
+				ex.unsupportedAt(in, "receive from non-channel")
+			}
+			v := ex.freshValueOfType(st, reach, fr.fn.Name()+"."+in.Name()+".recv", ct.Elem())
+			if in.CommaOk {
+				fr.env[in] = Tuple{v, vc.FreshConst(fr.fn.Name()+"."+in.Name()+".ok", SBool)}
+			} else {
+				fr.env[in] = v
+			}
 		default:
 			ex.unsupportedAt(in, "unary op "+in.Op.String())
 		}
